@@ -372,6 +372,8 @@ class Backend:
             first, marker = self._paginate(rows, 2, 2)
         elif mode == 3:
             first, marker = self._paginate(rows, 0, 2)
+        elif mode >= 10:
+            first, marker = self._paginate(rows, mode - 10, 1000)
         else:
             raise ValueError(mode)
 
